@@ -30,7 +30,7 @@ W_CHOICES = [[], ["-Wall"], ["-Wno-all"], ["-Wall", "-Wno-label-fixup"], ["-Wno-
 
 def plan(tier, seed):
     n = 16 if tier == "quick" else 48
-    total = 400 if tier == "quick" else 6000
+    total = 400 if tier == "quick" else 20000
     return [{"part": i, "parts": n, "seed": seed, "tier": tier, "count": max(1, total // n), "points": 8 if tier == "quick" else 12} for i in range(n)]
 
 
